@@ -39,7 +39,6 @@ EXPLANATION = (
 NOT_DECIDED = [
     "reads return the bytes last written at those positions (needs a memory "
     "model; follows from C07 + R1-R4 when the controller is right)",
-    "TruncationWarning emitted exactly when fewer bytes are transferred",
 ]
 
 S = Poly.atom("self._start_address")
@@ -481,6 +480,99 @@ def r5_guards(program, rep):
     rep.floor("C13-R5", 15)
 
 
+def r6_truncation_warning(program, rep):
+    """A TruncationWarning is emitted exactly when fewer bytes are
+    transferred than requested: the warning sits on the branch taken iff
+    requested > available, the count is cut to `available` on that branch
+    and nowhere else."""
+    for name, counted in (("read", "n_bytes"), ("write", None)):
+        fn = program.get(CLS + "." + name)
+        inst = qual(fn)
+        fl = Flow(fn)
+        cfg = fl.cfg
+        warns = [c for c in calls_in(fn, "warn")
+                 if any(unparse(a) == "TruncationWarning" for a in c.args)]
+        sites = calls_in(fn, ("_perform_read", "_perform_write"))
+        ok = len(warns) == 1 and len(sites) == 1
+        rep.check(ok, "C13-R6", inst, "%s has one truncation warning site" %
+                  name, construct="%s warn sites %d" % (name, len(warns)),
+                  node=fn)
+        if not ok:
+            continue
+        wn = cfg.node_containing(warns[0])
+        # the guard: requested > available (strict)
+        guard = None
+        for c, p, a in fl.facts(wn):
+            if isinstance(c, ast.Compare) and len(c.ops) == 1:
+                opn = type(c.ops[0]).__name__
+                if (opn == "Gt" and p) or (opn == "LtE" and not p):
+                    guard = (fl.sym(c.left, a), fl.sym(c.comparators[0], a),
+                             a)
+                elif (opn == "Lt" and p) or (opn == "GtE" and not p):
+                    guard = (fl.sym(c.comparators[0], a), fl.sym(c.left, a),
+                             a)
+        rep.check(guard is not None, "C13-R6", inst, "the warning is "
+                  "emitted only under 'requested > available'",
+                  construct="%s warn guard" % name, node=warns[0])
+        if guard is None:
+            continue
+        req, avail, gnode = guard
+        # what is requested: the parameter's count
+        if name == "read":
+            want_req = fl.sym(parse_expr("n_bytes"), gnode)
+        else:
+            want_req = fl.sym(parse_expr("len(%s)" % [
+                a.arg for a in fn.args.args][1]), gnode)
+        rep.check(req == want_req, "C13-R6", inst, "'requested' is the "
+                  "number of bytes the caller asked to transfer",
+                  construct="%s warn compares %r" % (name, req),
+                  node=warns[0])
+        # on the warning branch the transfer is cut to `available`: every
+        # path from the branch to the controller call passes a definition
+        # of the transferred quantity
+        sn = cfg.node_containing(sites[0])
+        cutters = []
+        for d in fl.defs:
+            if d.mode != "assign" or not cfg.reaches(gnode, d.node):
+                continue
+            if not cfg.dominates(gnode, d.node):
+                continue
+            if name == "read" and d.var == "n_bytes":
+                v = d.value
+                src = fl.sym(v, d.node)
+                cutters.append((d, src))
+            if name == "write" and isinstance(d.value, ast.Subscript) and \
+                    isinstance(d.value.slice, ast.Slice) and \
+                    d.value.slice.lower is None:
+                cutters.append((d, fl.sym(d.value.slice.upper, d.node)))
+        okc = len(cutters) == 1 and cutters[0][1] == avail and \
+            cfg.must_pass(gnode, lambda n: n is cutters[0][0].node,
+                          targets=[sn, cfg.exit])
+        rep.check(okc, "C13-R6", inst, "on that branch (and only there) the "
+                  "transfer is cut to exactly the bytes available",
+                  construct="%s truncation to available" % name,
+                  node=warns[0],
+                  fail="the truncation and the TruncationWarning are not "
+                       "tied together: bytes can be dropped silently or a "
+                       "warning raised without truncation")
+        # no other place shortens the transfer
+        others = []
+        for d in fl.defs:
+            if d.mode == "assign" and d.node is not cutters[0][0].node \
+                    if cutters else False:
+                if name == "read" and d.var == "n_bytes" and \
+                        not has_fact(fl.facts(d.node), "n_bytes < 0", True):
+                    others.append(d)
+                if name == "write" and d.var == [a.arg for a in
+                                                 fn.args.args][1]:
+                    others.append(d)
+        rep.check(not others, "C13-R6", inst, "nothing else changes the "
+                  "amount transferred (apart from expanding the default "
+                  "count)", construct="%s other count changes %d" % (
+                      name, len(others)), node=fn)
+    rep.floor("C13-R6", 6)
+
+
 def check(program, rep):
     program.module(MOD)
     inline = _inline_props(program)
@@ -489,6 +581,7 @@ def check(program, rep):
     r2_slices(program, rep)
     r3_seek(program, rep)
     r5_guards(program, rep)
+    r6_truncation_warning(program, rep)
     rep.assume("distinct local names are not aliases of one mutable object")
     rep.assume("_start_address/_end_address are only written by __init__ "
                "(checked: R0) so start <= end is a class invariant")
